@@ -896,6 +896,29 @@ class C15(PropertyCheck):
                 yield c
         if case.get("entries"):
             c = dict(case); del c["entries"]; c.pop("entry_values", None); yield c
+            ents = case["entries"]
+            if len(ents) > 1:
+                for k in range(len(ents)):
+                    c = dict(case)
+                    c["entries"] = [e for j, e in enumerate(ents) if j != k]
+                    c["entry_values"] = [v for j, v in enumerate(case["entry_values"]) if j != k]
+                    yield c
+            # shorter strings / simpler numbers
+            for k, (_, typ, _) in enumerate(ents):
+                for e, v in enumerate(case["entry_values"][k]):
+                    cands = []
+                    if typ == "str" and len(v) > 0:
+                        cands = [v[:len(v) // 2], v[len(v) // 2:], v[1:], v[:-1]]
+                    elif typ == "int" and v not in (0, 1):
+                        cands = [0, 1]
+                    elif typ == "float" and v not in (0.0, 1.5):
+                        cands = [0.0, 1.5]
+                    for nv in cands:
+                        if nv != v:
+                            c = dict(case)
+                            c["entry_values"] = [list(col) for col in case["entry_values"]]
+                            c["entry_values"][k][e] = nv
+                            yield c
         # flatten the training metric (never used in decisions)
         if any(m[0] != 1.0 for m in case["metrics"]):
             c = dict(case); c["metrics"] = [[1.0, m[1]] for m in case["metrics"]]; yield c
